@@ -11,9 +11,11 @@ import (
 	"math"
 	"sort"
 	"strings"
+	"time"
 
 	jsonv2 "github.com/go-json-experiment/json"
 	"github.com/go-json-experiment/json/jsontext"
+	jsonv1 "github.com/go-json-experiment/json/v1"
 )
 
 // Yield is called at entry and exit of user-supplied methods (a scheduling point under the explorer).
@@ -178,6 +180,29 @@ func deep(n int) any {
 	return v
 }
 
+type optStruct struct {
+	Count  int               `json:"count,string"`
+	FooBar string            `json:"foo_bar,case:ignore"`
+	Empty  []int             `json:"empty,omitempty"`
+	Zero   *optStruct        `json:"zero,omitzero"`
+	D      time.Duration     `json:"d,format:units"`
+	Raw    jsontext.Value    `json:"raw"`
+	X      map[string]any    `json:",unknown"`
+	Emb    map[int]time.Time `json:"emb,omitempty"`
+}
+
+type texter struct{ A, B int }
+
+func (t texter) MarshalText() ([]byte, error) {
+	Yield()
+	return fmt.Appendf(nil, "%d<%d", t.A, t.B), nil
+}
+func (t *texter) UnmarshalText(b []byte) error {
+	Yield()
+	_, err := fmt.Sscanf(string(b), "%d<%d", &t.A, &t.B)
+	return err
+}
+
 // BigSize is the size of the large document (raised in the thorough tier).
 var BigSize = 64 << 10
 
@@ -293,6 +318,80 @@ func Alphabet() []Call {
 			out, err := jsontext.AppendFormat(dst, `{"a":[1,2,}`, jsontext.Multiline(true))
 			return mk(out, err)
 		}},
+		{"Marshal struct with string/omitempty/omitzero/format/unknown members", func() Result {
+			v := optStruct{Count: 12, FooBar: "x", Empty: []int{}, D: 90 * time.Second, Raw: jsontext.Value(` {"r" : [1 , 2]} `), X: map[string]any{"u": "<&>"}}
+			b, err := jsonv2.Marshal(&v, jsonv2.Deterministic(true))
+			return mk(b, err)
+		}},
+		{"Unmarshal struct (case-insensitive, string-tagged, unknown members, RejectUnknownMembers off)", func() Result {
+			var v optStruct
+			err := jsonv2.Unmarshal([]byte(`{"count":"34","FOO-BAR":"y","d":"1m30s","raw":[1, 2],"other":{"k":[true]},"emb":{"5":"2001-02-03T04:05:06Z"}}`), &v)
+			return mk(fmt.Sprintf("%d %q %v %s %v %v", v.Count, v.FooBar, v.D, v.Raw, Render(map[string]any(v.X)), v.Emb[5].Unix()), err)
+		}},
+		{"Unmarshal struct with RejectUnknownMembers (fails)", func() Result {
+			var v optStruct
+			err := jsonv2.Unmarshal([]byte(`{"count":"1","other":1}`), &v, jsonv2.RejectUnknownMembers(true), jsonv2.MatchCaseInsensitiveNames(true))
+			return mk(v.Count, err)
+		}},
+		{"Marshal with caller-supplied marshal functions", func() Result {
+			ms := jsonv2.JoinMarshalers(
+				jsonv2.MarshalFunc(func(b bool) ([]byte, error) { Yield(); return []byte(`"B"`), nil }),
+				jsonv2.MarshalToFunc(func(e *jsontext.Encoder, i int) error {
+					Yield()
+					return e.WriteToken(jsontext.String(fmt.Sprint("i", i)))
+				}))
+			b, err := jsonv2.Marshal(map[string]any{"a": true, "b": []int{1, 2}, "c": map[string]bool{"x": false}}, jsonv2.WithMarshalers(ms), jsonv2.Deterministic(true))
+			return mk(b, err)
+		}},
+		{"Marshal/Unmarshal text-method map keys", func() Result {
+			b, err := jsonv2.Marshal(map[texter]int{{1, 2}: 3, {0, 9}: 4}, jsonv2.Deterministic(true))
+			var back map[texter]int
+			err2 := jsonv2.Unmarshal(b, &back)
+			return mk(fmt.Sprintf("%s %v %v", b, len(back), err2), err)
+		}},
+		{"MarshalEncode with call-scoped options on a caller-owned Encoder", func() Result {
+			var bb bytes.Buffer
+			e := jsontext.NewEncoder(&bb)
+			err := jsonv2.MarshalEncode(e, map[string]any{"n": 1.0, "s": "<"}, jsonv2.StringifyNumbers(true), jsonv2.Deterministic(true), jsontext.EscapeForHTML(true))
+			err2 := jsonv2.MarshalEncode(e, []any{1.0, "<"})
+			return mk(fmt.Sprintf("%s|%v", bb.Bytes(), err2), err)
+		}},
+		{"UnmarshalDecode of three stream values with call-scoped options", func() Result {
+			d := jsontext.NewDecoder(&chunkReader{b: []byte(`{"a":"1"} {"a":2} [`), n: 3})
+			var v1 map[string]int
+			err1 := jsonv2.UnmarshalDecode(d, &v1, jsonv2.StringifyNumbers(true))
+			var v2 map[string]int
+			err2 := jsonv2.UnmarshalDecode(d, &v2)
+			var v3 any
+			err3 := jsonv2.UnmarshalDecode(d, &v3)
+			return mk(fmt.Sprintf("%v %v %v %v %v", v1, errKey(err1), v2, errKey(err2), v3), err3)
+		}},
+		{"v1 Marshal + Unmarshal (legacy option set)", func() Result {
+			b, err := jsonv1.Marshal(map[string]any{"b": []byte("hi"), "a": "<\xff>", "n": nil, "z": [2]int{}})
+			var v struct {
+				A string
+				B []byte
+				N *int
+			}
+			err2 := jsonv1.Unmarshal([]byte(`{"a":"x","A":"y","b":"aGk=","n":null,"junk":[1,{"a":1,"a":2}]}`), &v)
+			return mk(fmt.Sprintf("%s %q %s %v", b, v.A, v.B, err2), err)
+		}},
+		{"Value.Canonicalize + Compact + Indent", func() Result {
+			v := jsontext.Value(` {"b" : 1.0e2, "a\u0041" : ["\u003c", -0.0, 1E400], "": {}} `)
+			c := append(jsontext.Value(nil), v...)
+			err := c.Canonicalize()
+			k := append(jsontext.Value(nil), v...)
+			err2 := k.Compact()
+			i := append(jsontext.Value(nil), v...)
+			err3 := i.Indent(jsontext.WithIndentPrefix(" "), jsontext.WithIndent("  "))
+			return mk(fmt.Sprintf("%s|%s|%v|%s|%v", c, k, err2, i, err3), err)
+		}},
+		{"Marshal map[int]string without Deterministic (order-insensitive rendering)", func() Result {
+			b, err := jsonv2.Marshal(map[int]string{3: "c", 1: "a", 2: "b", 10: "j"})
+			var back map[string]any
+			err2 := jsonv2.Unmarshal(b, &back)
+			return mk(fmt.Sprintf("%d %s %v", len(b), Render(back), err2), err)
+		}},
 		{"Token-level Encoder + Decoder round", func() Result {
 			var bb bytes.Buffer
 			e := jsontext.NewEncoder(&bb, jsontext.SpaceAfterColon(true))
@@ -305,4 +404,162 @@ func Alphabet() []Call {
 			return mk(fmt.Sprintf("%s|%s|%v", bb.Bytes(), v, err2), err)
 		}},
 	}
+}
+
+// ---- Deterministic(true): identical bytes for every map insertion order ----
+
+func perms(n int) [][]int {
+	var out [][]int
+	var rec func(cur []int, used int)
+	rec = func(cur []int, used int) {
+		if len(cur) == n {
+			out = append(out, append([]int(nil), cur...))
+			return
+		}
+		for i := 0; i < n; i++ {
+			if used&(1<<i) == 0 {
+				rec(append(cur, i), used|1<<i)
+			}
+		}
+	}
+	rec(nil, 0)
+	return out
+}
+
+// orders returns insertion orders of n keys: all permutations for n<=6, otherwise identity, reversal,
+// every rotation and every transposition of the identity.
+func orders(n int) [][]int {
+	if n <= 6 {
+		return perms(n)
+	}
+	id := make([]int, n)
+	for i := range id {
+		id[i] = i
+	}
+	out := [][]int{id}
+	rev := make([]int, n)
+	for i := range rev {
+		rev[i] = n - 1 - i
+	}
+	out = append(out, rev)
+	for r := 1; r < n; r++ {
+		o := make([]int, n)
+		for i := range o {
+			o[i] = (i + r) % n
+		}
+		out = append(out, o)
+	}
+	for a := 0; a < n; a++ {
+		for b := a + 1; b < n; b++ {
+			o := append([]int(nil), id...)
+			o[a], o[b] = o[b], o[a]
+			out = append(out, o)
+		}
+	}
+	return out
+}
+
+// DetFamily is one map construction parameterised by the insertion order of its keys.
+type DetFamily struct {
+	Name  string
+	N     int
+	Build func(order []int) any
+}
+
+// DetFamilies lists map constructions whose Deterministic(true) encoding must not depend on insertion order.
+func DetFamilies() []DetFamily {
+	skeys := []string{"b", "a", "\u00e9", "aa", "", "B", "\U0001F600", "\uffff", "a\x00", "~", "10", "9", "z", "zz", "k14", "k15", "k16", "k17", "k18", "k19"}
+	mkS := func(n int) DetFamily {
+		return DetFamily{fmt.Sprintf("map[string]int with %d keys", n), n, func(o []int) any {
+			m := map[string]int{}
+			for _, i := range o {
+				m[skeys[i]] = i
+			}
+			return m
+		}}
+	}
+	return []DetFamily{
+		mkS(5), mkS(9), mkS(20),
+		{"map[string]any behind any (untyped fast path)", 6, func(o []int) any {
+			m := map[string]any{}
+			for _, i := range o {
+				m[skeys[i]] = []any{float64(i), map[string]any{skeys[(i+1)%6]: nil, skeys[(i+2)%6]: true}}
+			}
+			return []any{m}
+		}},
+		{"map[int]string (numeric keys sorted as text)", 6, func(o []int) any {
+			ks := []int{10, 9, -1, 100, 0, -10}
+			m := map[int]string{}
+			for _, i := range o {
+				m[ks[i]] = "v"
+			}
+			return m
+		}},
+		{"map[float64]bool", 5, func(o []int) any {
+			ks := []float64{1.5, -0.0, 1e21, 1e-7, 100}
+			m := map[float64]bool{}
+			for _, i := range o {
+				m[ks[i]] = true
+			}
+			return m
+		}},
+		{"map[texter]int (text-method keys)", 5, func(o []int) any {
+			m := map[texter]int{}
+			for _, i := range o {
+				m[texter{i % 3, 9 - i}] = i
+			}
+			return m
+		}},
+		{"map in struct in map", 4, func(o []int) any {
+			type in struct {
+				M map[string][]int `json:"m"`
+			}
+			outer := map[string]in{}
+			for _, i := range o {
+				inner := map[string][]int{}
+				for _, j := range o {
+					inner[skeys[j]] = []int{i, j}
+				}
+				outer[skeys[i]] = in{inner}
+			}
+			return outer
+		}},
+	}
+}
+
+// DetDigest marshals every insertion order of every family with Deterministic(true) through
+// Marshal, MarshalWrite and MarshalEncode; all bytes within a family must be identical.
+// It returns one line per family (name + the bytes) and the first disagreement found.
+func DetDigest(count func(n int)) (lines []string, bad string) {
+	for _, f := range DetFamilies() {
+		var ref []byte
+		for k, o := range orders(f.N) {
+			v := f.Build(o)
+			b, err := jsonv2.Marshal(v, jsonv2.Deterministic(true))
+			var bb bytes.Buffer
+			err2 := jsonv2.MarshalWrite(&bb, v, jsonv2.Deterministic(true))
+			w := &plainWriter{}
+			e := jsontext.NewEncoder(w)
+			err3 := jsonv2.MarshalEncode(e, v, jsonv2.Deterministic(true))
+			count(3)
+			if err != nil || err2 != nil || err3 != nil {
+				return lines, fmt.Sprintf("%s, insertion order %v: errors %v %v %v", f.Name, o, err, err2, err3)
+			}
+			if k == 0 {
+				ref = b
+			}
+			if !bytes.Equal(b, ref) || !bytes.Equal(bb.Bytes(), ref) || !bytes.Equal(bytes.TrimSuffix(w.b, []byte("\n")), ref) {
+				return lines, fmt.Sprintf("%s: Deterministic(true) bytes depend on the insertion order / entry point: order %v gives %s | %s | %s, first order gave %s", f.Name, o, b, bb.Bytes(), w.b, ref)
+			}
+			// without Deterministic: the same members in some order
+			nb, err := jsonv2.Marshal(v)
+			count(1)
+			var x, y any
+			if err != nil || jsonv2.Unmarshal(nb, &x) != nil || jsonv2.Unmarshal(ref, &y) != nil || Render(x) != Render(y) {
+				return lines, fmt.Sprintf("%s: without Deterministic the output %s does not hold the same members as %s", f.Name, nb, ref)
+			}
+		}
+		lines = append(lines, f.Name+" => "+string(ref))
+	}
+	return lines, ""
 }
